@@ -217,6 +217,44 @@ def scan_section(chk):
                    func=f"{os.path.relpath(sites[nm][0], chk.repo) if nm in sites else '?'}:{nm}", backend="site-scanner")
     missing = [k for k in ALLOWED if k not in mutated]
     chk.record("global-state:every-classified-site-still-exists", not missing, "vanished: " + ", ".join(missing), kind="reachability")
+    # ---- user namespaces (frame dictionaries / module dicts) outlive every check and are NOT reset by
+    # the engine: a write into one makes later compiles depend on the session history.  Every store /
+    # delete / mutating call whose target goes through f_locals, f_globals, f_builtins, __globals__
+    # or __dict__ must be classified; the only allowed writer restores what it changed (C23).
+    NS = {"f_locals", "f_globals", "f_builtins", "__globals__", "__dict__"}
+    NS_ALLOWED = {"tracing/builtins_mock.py:mock_builtins": "temporary shadowing of int/float/len, undone in a finally block (proved under C23)"}
+
+    def through_ns(x):
+        while isinstance(x, (ast.Attribute, ast.Subscript, ast.Call)):
+            if isinstance(x, ast.Attribute) and x.attr in NS:
+                return True
+            x = x.value if not isinstance(x, ast.Call) else x.func
+        return False
+    ns_sites = {}
+    for p, tree in mods.items():
+        for fn in ast.walk(tree):
+            if not isinstance(fn, (ast.FunctionDef, ast.AsyncFunctionDef)):
+                continue
+            for n in ast.walk(fn):
+                hit = None
+                if isinstance(n, (ast.Assign, ast.AugAssign, ast.Delete)):
+                    ts = n.targets if isinstance(n, (ast.Assign, ast.Delete)) else [n.target]
+                    for t in ts:
+                        if isinstance(t, ast.Subscript) and through_ns(t.value):
+                            hit = "item store/delete"
+                if isinstance(n, ast.Call) and isinstance(n.func, ast.Attribute) and n.func.attr in MUT_METHODS and through_ns(n.func.value):
+                    hit = n.func.attr
+                if isinstance(n, ast.Call) and isinstance(n.func, ast.Name) and n.func.id in ("setattr", "delattr") and n.args and isinstance(n.args[0], ast.Name) and n.args[0].id in ("module", "mod"):
+                    hit = n.func.id
+                if hit:
+                    rel = os.path.relpath(p, chk.repo).split("guppylang_internals/")[-1].split("src/guppylang/")[-1]
+                    ns_sites.setdefault(f"{rel}:{fn.name}", []).append(f"line {n.lineno} ({hit})")
+    for k in sorted(ns_sites):
+        ok = k in NS_ALLOWED
+        chk.record(f"user-namespace-write[{k}]:classified({'restored' if ok else 'UNCLASSIFIED'})", ok,
+                   (NS_ALLOWED[k] if ok else "writes into a frame/module dictionary that outlives the check: ") + "; ".join(ns_sites[k]),
+                   func=f"guppylang_internals/{k}", backend="site-scanner")
+    chk.record("user-namespace-writes:the-classified-writer-still-exists", all(k in ns_sites for k in NS_ALLOWED), str(sorted(ns_sites)), kind="reachability")
     # the scoped ContextVar is reset in a finally block
     st = [p for p in mods if p.endswith("tracing/state.py")]
     src = open(st[0]).read() if st else ""
